@@ -96,7 +96,9 @@ PROPS["C15"] = {
     "features": ["c15"],
     "modules": ["c15_order::"],
     "needs_rand_090": False,
-    "has_thorough_harnesses": False,
+    "has_thorough_harnesses": True,
+    "caps_by_harness": [("^c15_t_from_", (1200, 12))],
+    "weight_by_harness": [("^c15_t_from_", 2)],
     "functions": [
         "ec_core::test_results::{Score<i64>,Error<i64>}::{cmp,partial_cmp,eq,lt,le,gt,ge}",
         "<ec_core::test_results::TestResult<i64,i64> as PartialOrd>::partial_cmp / PartialEq::eq",
@@ -109,10 +111,12 @@ PROPS["C15"] = {
     "bounds": {
         "quick": "all i64 triples (full width) for Score/Error/TestResult; result vectors of lengths (0,0),(0,2),(1,1),(3,1),(3,3) with "
                  "arbitrary i64 entries, arbitrary totals and genomes for the ordering of TestResults/EcIndividual; "
-                 "TestResults::from over every i64 vector of length 0..=4 whose left-to-right partial sums fit in i64; "
+                 "TestResults::from over every i64 vector of length 0..=4 whose left-to-right partial sums fit in i64, and over vectors of 9 and 17 entries from the i16 range "
+                 "(lengths just past the block sizes of a chunked summation: total == sum, per-case results in order); "
                  "IndividualGenerator/GenomeScorer for every 64-bit generated genome and both maker outcomes",
+        "thorough": "as quick plus TestResults::from over vectors of 33 and 65 entries from the i16 range",
     },
-    "outside": "result vectors longer than 4; sums that overflow i64 (panic in dev, wrap in release; stated as outside the property); payload types other than i64",
+    "outside": "result vectors longer than 4 with full-width entries, longer than 17 (quick) / 65 (thorough) with i16 entries; orderings of result vectors longer than 3; sums that overflow i64 (panic in dev, wrap in release; stated as outside the property); payload types other than i64",
     "assumptions": [
         "TestResults::from: the mathematical sum (and every left-to-right partial sum) fits the payload type",
         "scorer and genome generator are pure probe closures supplied by the harness",
